@@ -48,6 +48,7 @@ func runC01(c *Ctx) {
 	valueWithVariables(c)
 	c01Small(c)
 	nilListIsNullOnly(c)
+	layoutAgreement(c)
 }
 
 // c01SelectionsPrivate: the merged sub-selection of a collected field is a slice private to that CollectFields call.  Fields
